@@ -330,12 +330,16 @@ class FieldCodeGenerator:
         if not self._optional:
             return
 
-        if self._context.reached_optional_field:
+        # The context flag may have been set outside of this class's serialize method (by an optional
+        # field inside a switch case, or by the enclosing object of a case data class), in which case
+        # the local variable has not been assigned yet.
+        if self._context.reached_optional_field and self._data.declared_reached_missing_optional:
             self._data.serialize.add_line(
                 f"reached_missing_optional = reached_missing_optional or data._{self._name} is None"
             )
         else:
             self._data.serialize.add_line(f"reached_missing_optional = data._{self._name} is None")
+        self._data.declared_reached_missing_optional = True
         self._data.serialize.begin_control_flow("if not reached_missing_optional")
 
     def _generate_serialize_none_not_allowed_error(self):
